@@ -686,6 +686,12 @@ func checkC05(c *Ctx) {
 	c.R.Floor("L5.schema", 2)
 	c.R.Floor("L6.spc", 2)
 	c.R.Floor("C2.surface", 1)
+	// the producers keep nothing in package-level memory between calls
+	c.rulePureAs("E.state", []string{"pkcs7.SignPKCS7", "authenticode.SignAuthenticode", "authenticode.CreateSpcIndirectDataContent"})
+	c.R.Floor("E.state", 3)
+	c.ruleRecycle("P.recycle", func(f *ssa.Function) bool {
+		return strings.Contains(name(f), "authenticode.") || strings.Contains(name(f), "pkcs7.") || strings.Contains(name(f), "efi/signature.")
+	})
 }
 
 // topBuilderShape: the shape emitted on the builder that the anchor function
